@@ -33,7 +33,8 @@ REQUIRED = ["histories_checked", "events_checked", "deep_traversals", "low_limit
             "raising_callbacks_checked", "list_mutating_callbacks", "history_traversals",
             "inplace_reparentings", "history_copies", "history_rerootings", "handle_variants",
             "falsy_callable_callbacks", "forest_traversals", "row_permuted_topologies",
-            "near_recursion_limit_chains", "tap__traverse_dfs"]
+            "near_recursion_limit_chains", "tap__traverse_dfs", "size_sweep_cases",
+            "trees_beyond_46341_nodes"]
 FLOOR = {"quick": 1200, "thorough": 100000}
 SHARDS = {"quick": 8, "thorough": 16}
 TECHNIQUE = ("runtime monitoring: recorded enter/leave callback histories with unique tokens "
@@ -495,6 +496,18 @@ def _workload(ctx):
             ctx.case(case, klass="raising-callback")
             execute(ctx, case)
 
+    # sizes random cases never have: on / next to powers of two, and big *branched* trees with
+    # permuted numbering (products of ids and sizes pass 2^31 beyond 46 341 nodes)
+    for rc in G.sweep_recipes(ctx, large=2):
+        n = rc["n"]
+        for start in (0, int(rng.integers(1, n))):
+            case = {"kind": "small", "tree": rc, "api": APIS[int(rng.integers(0, len(APIS)))],
+                    "mode": MODES[int(rng.integers(0, 3))], "start": int(start)}
+            ctx.case(case, klass="size-sweep" + ("/large" if n > 10000 else ""))
+            ctx.count("size_sweep_cases")
+            if n > 40000:
+                ctx.count("trees_beyond_46341_nodes")
+            execute(ctx, case)
     # deep structures at the default recursion limit
     deep_n = 10_000 if ctx.quick else 100_000
     jobs = [(s, a, m) for s in ("chain", "revchain", "comb", "broom") for a in APIS for m in MODES]
